@@ -1005,6 +1005,8 @@ fn gen(seed: u64, run: u64, focus: &str, tier: Tier) -> Plan {
         "C05" => {
             if rng.chance(1, 4) {
                 "deduper"
+            } else if rng.chance(1, if tier == Tier::Quick { 400 } else { 150 }) {
+                "giant"
             } else {
                 "dedup"
             }
@@ -1019,7 +1021,7 @@ fn gen(seed: u64, run: u64, focus: &str, tier: Tier) -> Plan {
             let big = rng.chance(1, if tier == Tier::Quick { 6 } else { 3 });
             specs.push(gen_spec(&mut rng, big));
         },
-        "dedup" | "deduper" => {
+        "dedup" | "deduper" | "giant" => {
             let n = rng.range(1, 3);
             for _ in 0..n {
                 let big = rng.chance(1, 10);
@@ -1062,7 +1064,10 @@ fn gen(seed: u64, run: u64, focus: &str, tier: Tier) -> Plan {
             index_new_xorbs: rng.chance(1, 2),
         });
     }
-    if mode != "format" && mode != "deduper" {
+    if mode == "giant" {
+        specs.clear();
+    }
+    if mode != "format" && mode != "deduper" && mode != "giant" {
         let n_ops = rng.range(3, if tier == Tier::Quick { 10 } else { 16 }) as usize;
         let ns = specs.len() as u64;
         for _ in 0..n_ops {
@@ -1358,6 +1363,114 @@ fn run_setops_direct(p: &Plan, models: &[ModelShard], rep: &mut RunReport) {
 
 
 // ------------------------------------------------------------------------------------------------
+// mode "giant": a xorb with more chunks than a 16-bit chunk offset can address (legal in the format)
+
+fn run_giant(p: &Plan, rep: &mut RunReport) {
+    let mut rng = Rng::new(p.query_seed);
+    let n = 65_536 + rng.range(1, 300) as usize;
+    let mut model = ModelShard::default();
+    let mk = |rng: &mut Rng| -> H {
+        let mut h = [0u8; 32];
+        rng.fill(&mut h);
+        h
+    };
+    // a few ordinary xorbs around it in hash order
+    for _ in 0..rng.range(0, 4) {
+        let mut chunks = Vec::new();
+        let mut pos = 0u32;
+        for _ in 0..rng.range(1, 20) {
+            let l = rng.range(1, 900) as u32;
+            chunks.push((mk(&mut rng), l, pos));
+            pos += l;
+        }
+        let hash = mk(&mut rng);
+        model.xorbs.insert(hash, RefXorbRec { hash, flags: 0, num_bytes: pos, num_bytes_on_disk: pos, chunks });
+    }
+    let ghash = mk(&mut rng);
+    let mut chunks = Vec::with_capacity(n);
+    let mut pos = 0u32;
+    for _ in 0..n {
+        let l = rng.range(1, 9) as u32;
+        chunks.push((mk(&mut rng), l, pos));
+        pos += l;
+    }
+    model.xorbs.insert(ghash, RefXorbRec { hash: ghash, flags: 0, num_bytes: pos, num_bytes_on_disk: pos, chunks });
+    let giant = model.xorbs[&ghash].clone();
+    let (s, bytes) = serialize_model(&model);
+    // queries around the 16-bit boundary, at the ends, and a few elsewhere
+    let mut starts: Vec<usize> = vec![0, 1, 65_533, 65_534, 65_535, 65_536, 65_537, n - 2, n - 1];
+    for _ in 0..6 {
+        starts.push(rng.usize_below(n));
+    }
+    let mut queries: Vec<Vec<H>> = Vec::new();
+    for st in starts {
+        let k = rng.range(1, 4) as usize;
+        let mut q: Vec<H> = giant.chunks.iter().skip(st).take(k).map(|c| c.0).collect();
+        if q.len() < k {
+            // running past the end of the xorb: continue with a foreign hash
+            q.push(mk(&mut rng));
+        }
+        queries.push(q);
+    }
+    let mut r = ShortReader::new(&bytes, p.reader_seed, p.reader_mode.min(1) * 2);
+    let info = match MDBShardInfo::load_from_reader(&mut r) {
+        Ok(i) => i,
+        Err(e) => {
+            rep.violate("C05.a", "giant:load", format!("{e}"));
+            return;
+        },
+    };
+    let dir = scratch_dir("g");
+    let _g = ScratchGuard(dir.clone());
+    let sd = dir.join("shards");
+    std::fs::create_dir_all(&sd).unwrap();
+    let rt = tokio::runtime::Builder::new_current_thread().enable_all().build().unwrap();
+    let mgr = rt.block_on(async {
+        let sf = MDBShardFile::write_out_from_reader(&sd, &mut Cursor::new(&bytes)).ok()?;
+        let m = ShardFileManager::new_in_session_directory(&sd).await.ok()?;
+        m.register_shards(&[sf]).await.ok()?;
+        Some(m)
+    });
+    let Some(mgr) = mgr else {
+        rep.violate("C05.a", "giant:manager", "could not register the shard".into());
+        return;
+    };
+    let (mut hits_mem, mut hits_disk, mut hits_mgr, mut beyond) = (0u64, 0u64, 0u64, 0u64);
+    for q in &queries {
+        let mq: Vec<MerkleHash> = q.iter().map(m_of).collect();
+        if let Some(ans) = s.chunk_hash_dedup_query(&mq) {
+            hits_mem += 1;
+            check_dedup_answer(rep, "C05.a", "in-memory", &model.xorbs, q, &ans, "xorb beyond 65536 chunks");
+        }
+        match info.chunk_hash_dedup_query(&mut r, &mq) {
+            Ok(Some(ans)) => {
+                hits_disk += 1;
+                check_dedup_answer(rep, "C05.a", "on-disk", &model.xorbs, q, &ans, "xorb beyond 65536 chunks");
+                beyond += (ans.1.chunk_index_start >= 65_536) as u64;
+            },
+            Ok(None) => {},
+            Err(e) => rep.violate("C05.a", "on-disk-query-error", format!("{e}")),
+        }
+        match rt.block_on(mgr.chunk_hash_dedup_query(&mq)) {
+            Ok(Some(ans)) => {
+                hits_mgr += 1;
+                check_dedup_answer(rep, "C05.a", "manager", &model.xorbs, q, &ans, "xorb beyond 65536 chunks");
+            },
+            Ok(None) => {},
+            Err(e) => rep.violate("C05.a", "manager-query-error", format!("{e}")),
+        }
+    }
+    rep.count("giant_xorb_runs", 1);
+    rep.count("probe:giant_in_memory_hits", hits_mem);
+    rep.count("probe:on_disk_hits", hits_disk);
+    rep.count("probe:manager_hits", hits_mgr);
+    rep.count("probe:giant_answers_starting_beyond_65535", beyond);
+    rep.count("probe:query_longer_than_match", 1);
+    rep.nontrivial = hits_disk > 0 && beyond > 0;
+    rep.signature = mix(&[p.query_seed, n as u64, hits_disk, hits_mgr]);
+}
+
+// ------------------------------------------------------------------------------------------------
 // mode "deduper": deduplication::FileDeduper driven directly against a mock data interface
 
 struct DdState {
@@ -1632,6 +1745,8 @@ impl Engine for ShardEngine {
             run_format(&p, &mut rep);
         } else if p.mode == "deduper" {
             run_deduper(&p, &mut rep);
+        } else if p.mode == "giant" {
+            run_giant(&p, &mut rep);
         } else {
             let models: Vec<ModelShard> = gen_models(&p.specs);
             match p.mode.as_str() {
@@ -1711,7 +1826,7 @@ impl Engine for ShardEngine {
     fn rule(&self, focus: &str) -> String {
         match focus {
             "C09" => "Each run: a seeded model shard (0..700 files, 0..60 xorbs, up to 3000 chunks per xorb, four hash styles incl. <=7 equal truncated prefixes, extreme and densely clustered keys; five flag modes; optional re-insertion of identical records) is built through the real in-memory shard, serialised, parsed by the independent parser, and queried through a seekable reader with seeded short reads, the minimal-shard readers (sync short reads; async short reads + Pending) and the stream walker. Non-trivial: some lookup table has > 256 entries (interpolation phase live) or a truncated-prefix collision group exists. Distinct: (model seed, reader seed, reader mode, table size).".into(),
-            "C05" => "Each run: 1-3 model shards with duplicate chunks across xorbs and colliding truncated prefixes; direct queries against the in-memory index and the on-disk shard (short-read reader), then a seeded directory history (add/flush/plant/consolidate/keyed re-export under several keys/re-open/clock jumps) with manager queries after each step; every answer is checked for truthfulness against the xorbs ever added. One run in four instead drives deduplication::FileDeduper directly (mode \"deduper\"): a seeded chunk sequence made of runs of stored chunks, own chunks from a small pool and repetitions of earlier stretches is fed in seeded batches against a mock data interface answering from a real in-memory index (a second shard may arrive through the global-dedup query; xorbs the deduper cuts may be added to the index), under per-process xorb limits of 1..17 chunks and sampled fragmentation limits; every index answer and every segment of the final file record (index answers used, in-xorb self-references, new data, across xorb cuts) must name a xorb whose chunks at those positions are the file's chunks there, with the right byte count. Non-trivial: >= 1 hit came from an on-disk shard or the manager and >= 1 query ran past a match end or met a colliding prefix (deduper mode: >= 2 segments and an index answer or a mid-file xorb cut). Distinct: (model seeds, op list hash, hit count).".into(),
+            "C05" => "Each run: 1-3 model shards with duplicate chunks across xorbs and colliding truncated prefixes; direct queries against the in-memory index and the on-disk shard (short-read reader), then a seeded directory history (add/flush/plant/consolidate/keyed re-export under several keys/re-open/clock jumps) with manager queries after each step; every answer is checked for truthfulness against the xorbs ever added. One run in four instead drives deduplication::FileDeduper directly (mode \"deduper\"): a seeded chunk sequence made of runs of stored chunks, own chunks from a small pool and repetitions of earlier stretches is fed in seeded batches against a mock data interface answering from a real in-memory index (a second shard may arrive through the global-dedup query; xorbs the deduper cuts may be added to the index), under per-process xorb limits of 1..17 chunks and sampled fragmentation limits; every index answer and every segment of the final file record (index answers used, in-xorb self-references, new data, across xorb cuts) must name a xorb whose chunks at those positions are the file's chunks there, with the right byte count. One run in 400 (quick) or 150 (thorough) builds a shard with a xorb of 65537..65835 chunks — more than the manager's 16-bit chunk offsets address, legal in the format — and queries the in-memory index, the on-disk shard and a manager around chunk 65535, at the ends and at random positions. Non-trivial: >= 1 hit came from an on-disk shard or the manager and >= 1 query ran past a match end or met a colliding prefix (deduper mode: >= 2 segments and an index answer or a mid-file xorb cut). Distinct: (model seeds, op list hash, hit count).".into(),
             "C10" => "Each run: 2-4 model shards (disjoint / overlapping / identical via shared seeds / empty; same file with different flag sets) -> cursor-level union and difference through short-read readers, plus a seeded directory history with consolidation under thresholds from 'merge nothing' to 'merge all' and simulated mtimes (ordered, tied, reversed). Non-trivial: >= 1 record occurred in both inputs of a union, or a consolidation merged shards. Distinct: (model seeds, op list hash, consolidation count).".into(),
             _ => "Each run: shards re-exported under 4 keys (incl. the zero key) with all 8 include-flag combinations into one directory while a simulated clock is advanced across creation/expiry/grace boundaries; exported bytes are checked by the independent parser (every chunk hash and table key keyed, no raw chunk hash, xorb/file hashes kept, sections present iff requested, timestamps), manager answers for unkeyed queries are checked for truthfulness, expired shards must not load and may be deleted only after expiry+grace. Non-trivial: >= 1 keyed export was checked and >= 1 manager query hit. Distinct: (model seeds, op list hash, export count).".into(),
         }
